@@ -432,7 +432,7 @@ impl<'tcx> Ex<'tcx> {
                             ),
                             None => (decl.clone(), cdid.is_local()),
                         };
-                        (n, decl, with_no_trimmed_paths!(format!("{:?}", cargs)), loc)
+                        (n, decl, with_no_trimmed_paths!(format!("[{}]", cargs.iter().map(|a| a.to_string()).collect::<Vec<_>>().join(", "))), loc)
                     } else {
                         (format!("indirect:{}", self.tystr(fty)), String::new(), String::new(), false)
                     };
